@@ -236,3 +236,64 @@ pub fn exh_count(alphabet: usize, max_len: usize) -> u64 {
     }
     total
 }
+
+/// Long line texts: `n` lines drawn from a vocabulary (so lines repeat when the vocabulary is
+/// small), one terminator style per text (sometimes mixed), k scattered line edits.
+pub fn long_text_pair(rng: &mut Rng, n: usize, max_edits: usize) -> (Vec<u8>, Vec<u8>) {
+    let vocab = *rng.pick(&[3usize, 40, 100_000]);
+    let term: &str = *rng.pick(&["\n", "\n", "\r\n", "\r"]);
+    let mixed = rng.chance(1, 6);
+    let mk_line = |rng: &mut Rng| -> String {
+        let w = rng.below(vocab);
+        let t = if mixed { *rng.pick(&["\n", "\r\n", "\r"]) } else { term };
+        format!("line {}{}", w, t)
+    };
+    let la: Vec<String> = (0..n).map(|_| mk_line(rng)).collect();
+    let mut lb = la.clone();
+    let k = rng.below(max_edits + 1);
+    for _ in 0..k {
+        match rng.below(5) {
+            0 if !lb.is_empty() => {
+                let i = rng.below(lb.len());
+                let l = (1 + rng.below(4)).min(lb.len() - i);
+                lb.drain(i..i + l);
+            }
+            1 => {
+                let i = rng.below(lb.len() + 1);
+                for _ in 0..1 + rng.below(4) {
+                    let l = mk_line(rng);
+                    lb.insert(i, l);
+                }
+            }
+            2 if !lb.is_empty() => {
+                let i = rng.below(lb.len());
+                let l = lb[i].clone();
+                lb.insert(i, l);
+            }
+            3 if lb.len() >= 2 => {
+                let i = rng.below(lb.len() - 1);
+                lb.swap(i, i + 1);
+            }
+            _ if !lb.is_empty() => {
+                let i = rng.below(lb.len());
+                lb[i] = format!("changed {}{}", rng.below(1000), term);
+            }
+            _ => {}
+        }
+    }
+    let mut a: Vec<u8> = la.concat().into_bytes();
+    let mut b: Vec<u8> = lb.concat().into_bytes();
+    // missing final newline on either side
+    for t in [&mut a, &mut b] {
+        if rng.chance(1, 3) {
+            while matches!(t.last(), Some(b'\n') | Some(b'\r')) {
+                t.pop();
+            }
+        }
+    }
+    if rng.chance(1, 2) {
+        (a, b)
+    } else {
+        (b, a)
+    }
+}
